@@ -54,7 +54,7 @@ def exhaustive(quick):
 
 
 def check(ctx):
-    gens = [("sync", 500, 6000, sync_case)]
+    gens = [("sync", 500, 40000, sync_case)]
     rule = ("programs of 2-6 thread bodies over up to 3 objects and 3 names (waittill, waittill_any, notify, endon, delete, thread, "
             "waitthread, wait, pause, end) under random host calls and frame schedules, plus every short history of two workers and a "
             "notifier over one object; non-trivial = at least one accepted command; distinct by SHA-1")
